@@ -553,6 +553,7 @@ func runSpec(c *run.Ctx, cs Case, s *Spec, vs []*Variant, dir string) {
 			report("exit-differs-between-runs:"+s.Cmd+":"+s.hash(), "exit-identity", fmt.Sprintf("exit status %d vs %d for the same lines%s", first.p.code, o.p.code, ctx(first)))
 		}
 	}
+	headOfFull(c, cs, s, a, vs, baseSnap, dir, report)
 	keys := 0
 	switch s.Cmd {
 	case "histo":
@@ -587,5 +588,155 @@ func runSpec(c *run.Ctx, cs Case, s *Spec, vs []*Variant, dir string) {
 	if cs.Index < 3 {
 		c.Sample(map[string]any{"cmd": strings.Join(s.baseArgs(), " "), "lines": len(s.Lines), "variants": len(vs), "first_line": run.Q(s.Lines[0].Text()),
 			"reference": fmt.Sprintf("matched %d / %d, ignored %d, parse errors %d, exit %d", a.matched, a.read, a.ignored, a.parseErr, a.wantExit())})
+	}
+}
+
+// headOfFull: what --num / --cols cut away. The same command with limits that hide nothing shows every row and column
+// in the sorter's order; the limited screen must show the head of exactly that order (rows: the first --num, for
+// reduce the header counts as a row; table columns: the first --cols). Plain keys only (cells are read back by
+// splitting on blanks), table and reduce.
+func headOfFull(c *run.Ctx, cs Case, s *Spec, a *Agg, vs []*Variant, base *outcome, dir string, report func(fp, class, msg string)) {
+	if base == nil || !s.Plain || s.CrashOnly || !s.Snap || len(vs) == 0 {
+		return
+	}
+	var rows, cols int
+	switch s.Cmd {
+	case "table":
+		if !tableGridApplicable(s, a) {
+			return
+		}
+		rows, cols = len(a.rows), len(a.cols)
+		if rows <= s.N && cols <= s.Cols {
+			return
+		}
+	case "reduce":
+		if s.Red == nil || a.reduce == nil || (len(s.Red.Groups) == 0 && !s.Red.Table) || len(s.Red.Groups)+len(s.Red.Accs) > 10 {
+			return
+		}
+		rows = len(a.reduce)
+		if rows+1 <= s.N {
+			return
+		}
+		for _, vals := range a.reduce {
+			if !allPlainAny(vals) {
+				return
+			}
+		}
+		for gk := range a.reduce {
+			if len(s.Red.Groups) > 0 && !allPlainAny(a.reduceParts[gk]) {
+				return
+			}
+		}
+	default:
+		return
+	}
+	full := *s
+	full.CmdArgs = nil
+	for i := 0; i < len(s.CmdArgs); i++ {
+		switch s.CmdArgs[i] {
+		case "--num", "--rows", "-n", "--cols":
+			i++
+			continue
+		}
+		full.CmdArgs = append(full.CmdArgs, s.CmdArgs[i])
+	}
+	full.CmdArgs = append(full.CmdArgs, "--num", "100000")
+	if s.Cmd == "table" {
+		full.CmdArgs = append(full.CmdArgs, "--cols", "100000")
+	}
+	full.N, full.Cols = 100000, 100000
+	var v *Variant
+	for _, x := range vs {
+		if x.Name == base.v.Name {
+			v = x
+		}
+	}
+	if v == nil {
+		return
+	}
+	vv := *v
+	vv.Name = "full-screen"
+	quiet := func(fp, class, msg string) {} // the full screen is only the yardstick here
+	o, ok := runVariant(c, cs, &full, a, &vv, dir, quiet)
+	os.RemoveAll(filepath.Join(dir, vv.Name))
+	if o == nil || !ok {
+		return
+	}
+	keysOf := func(body string, ng int) (hdr []string, rowKeys []string) {
+		lines := strings.Split(strings.TrimSuffix(body, "\n"), "\n")
+		if len(lines) < 2 {
+			return nil, nil
+		}
+		lines = lines[:len(lines)-1]
+		hdr = strings.Fields(lines[0])
+		for _, ln := range lines[1:] {
+			f := strings.Fields(ln)
+			if len(f) == 0 {
+				continue
+			}
+			if len(f) < ng {
+				ng = len(f)
+			}
+			rowKeys = append(rowKeys, strings.Join(f[:ng], " "))
+		}
+		return
+	}
+	ng := 1
+	if s.Cmd == "reduce" {
+		ng = len(s.Red.Groups)
+		if ng == 0 {
+			return
+		}
+	}
+	lh, lr := keysOf(base.body, ng)
+	fh, fr := keysOf(o.body, ng)
+	drop := func(xs []string) []string { // the Total row of --coltotal is not a data row
+		var out []string
+		for _, x := range xs {
+			if s.Cmd == "table" && x == "Total" && !a.rows["Total"] {
+				continue
+			}
+			out = append(out, x)
+		}
+		return out
+	}
+	lr, fr = drop(lr), drop(fr)
+	c.Count("limited_screens_compared_with_the_full_screen", 1)
+	ctx := fmt.Sprintf("\n  limited: %s\n  full:    %s", base.p.cmdline("rare"), o.p.cmdline("rare"))
+	if len(lr) > len(fr) {
+		report("head-of-full:"+s.Cmd+":"+s.hash(), "snapshot-vs-full", fmt.Sprintf("the limited screen has %d rows, the unlimited one %d%s", len(lr), len(fr), ctx))
+		return
+	}
+	for i := range lr {
+		if lr[i] != fr[i] {
+			report("head-of-full:"+s.Cmd+":"+s.hash(), "snapshot-vs-full", fmt.Sprintf("row %d of the limited screen is %s, row %d of the unlimited screen (same sort) is %s: the limit must cut the tail off, nothing else%s", i, run.Q(lr[i]), i, run.Q(fr[i]), ctx))
+			return
+		}
+	}
+	if s.Cmd == "table" {
+		strip := func(h []string) []string {
+			if len(h) > 0 && h[len(h)-1] == "Total" && !a.cols["Total"] {
+				return h[:len(h)-1]
+			}
+			return h
+		}
+		lh, fh = strip(lh), strip(fh)
+		if len(lh) > len(fh) {
+			report("head-of-full:"+s.Cmd+":"+s.hash(), "snapshot-vs-full", fmt.Sprintf("the limited screen has %d columns, the unlimited one %d%s", len(lh), len(fh), ctx))
+			return
+		}
+		for i := range lh {
+			if lh[i] != fh[i] {
+				report("head-of-full:"+s.Cmd+":"+s.hash(), "snapshot-vs-full", fmt.Sprintf("column %d of the limited screen is %s, of the unlimited screen %s%s", i, run.Q(lh[i]), run.Q(fh[i]), ctx))
+				return
+			}
+		}
+	}
+	want := min(rows, s.N)
+	if s.Cmd == "reduce" {
+		want = min(rows, s.N-1)
+	}
+	if s.Cmd == "table" && len(lr) != want {
+		report("head-of-full:"+s.Cmd+":"+s.hash(), "snapshot-vs-full", fmt.Sprintf("the limited screen shows %d rows; the data has %d and --num is %d%s", len(lr), rows, s.N, ctx))
 	}
 }
